@@ -1,12 +1,12 @@
 //! C06 — textbook Shamir: structure of dealing / recovery against a reference model
-//! written here.  Field *values* are abstracted to GF(65521) in the formula-level
+//! written here.  Field *values* are abstracted to GF(13) (the formulas are rational functions of degree <= 3 per variable with coefficients 0/+-1, so agreement on all of GF(13)^n is agreement as formal expressions) in the formula-level
 //! harnesses (stated width reduction: the 129-bit arithmetic itself is C07, per
 //! operation); t = 1 runs at full width with the C07 field laws.
 use crate::stubs::*;
 use core::convert::TryFrom;
 use star_sharks::{Fp, Share, Sharks};
 
-pub const Q: u64 = 65521;
+pub const Q: u64 = 13;
 
 /// abstraction of an element in the small-field model: ONE -> 1, otherwise limb 0
 /// (all other elements in play are kept normalised as [v, 0, 0], v < Q)
@@ -19,7 +19,7 @@ fn al(f: &Fp) -> u64 {
     }
 }
 fn mk(v: u64) -> Fp {
-    // all operands are < Q < 2^16, so every intermediate fits 32 bits
+    // all operands are < Q = 13, so every intermediate fits 32 bits
     fp_from_limbs([((v as u32) % (Q as u32)) as u64, 0, 0])
 }
 pub fn sf_mul_assign<'r>(a: &mut Fp, b: &'r Fp)
@@ -40,12 +40,26 @@ where
 {
     *a = mk(al(a) + Q - al(b));
 }
+/// a^(Q-2) mod Q by 4 square-and-multiply steps (deterministic, so the stub and the
+/// reference model below denote the same function)
+pub fn pow_inv(a: u32) -> u32 {
+    let q = Q as u32;
+    let mut r = 1u32;
+    let mut b = a % q;
+    let e: u32 = Q as u32 - 2;
+    let mut i = 0;
+    while i < 4 {
+        if (e >> i) & 1 == 1 {
+            r = (r * b) % q;
+        }
+        b = (b * b) % q;
+        i += 1;
+    }
+    r
+}
 pub fn sf_invert(a: &Fp) -> subtle::CtOption<Fp> {
-    let v = al(a);
-    let x: u64 = kani::any();
-    kani::assume(x < Q);
-    kani::assume(v == 0 || ((x as u32) * (v as u32)) % (Q as u32) == 1);
-    subtle::CtOption::new(mk(x), subtle::Choice::from((v != 0) as u8))
+    let v = al(a) as u32;
+    subtle::CtOption::new(mk(pow_inv(v) as u64), subtle::Choice::from((v != 0) as u8))
 }
 /// `Fp::is_valid` inside `Fp::random`: candidate assumed accepted *and* small
 pub fn sf_is_valid_assume(f: &Fp) -> bool {
@@ -129,71 +143,112 @@ fn horner(c: &[u64], n: usize, x: u64) -> u64 {
     acc as u64
 }
 
-/// dealing: K secret elements (+ TAIL ignored bytes), threshold T: exactly K polynomials
-/// of T coefficients, constant term = the secret element, every other coefficient one
-/// fresh draw of the supplied source, in order; shares from the sequential iterator are
-/// the points x = 1, 2, 3 on those polynomials.
-fn dealer<const K: usize, const TAIL: usize, const T: u32>() {
-    let mut secret = [0u8; 72];
-    let mut sv = [0u64; 3];
-    let mut k = 0;
-    while k < K {
-        let v: u64 = kani::any();
-        kani::assume(v < Q);
-        sv[k] = v;
-        let e = small_elem_bytes(v);
-        let mut i = 0;
-        while i < 24 {
-            secret[24 * k + i] = e[i];
-            i += 1;
-        }
-        k += 1;
-    }
-    let mut i = 0;
-    while i < TAIL {
-        secret[24 * K + i] = kani::any();
-        i += 1;
-    }
+/// dealing: one or two secret elements (+ ignored tail bytes), threshold t: exactly k
+/// polynomials of t coefficients, constant term = the secret element, every other
+/// coefficient one fresh draw of the supplied source, in order; the sequential iterator
+/// yields the points x = 1, 2, 3 on those polynomials (reference Horner in GF(Q)).
+fn deal1(t: u32, tail: usize) -> (star_sharks::Evaluator, u32) {
+    let v: u64 = kani::any();
+    kani::assume(v < Q);
+    let e = small_elem_bytes(v);
+    let mut secret = [0u8; 48];
+    secret[..24].copy_from_slice(&e);
+    let tl: [u8; 24] = kani::any();
+    secret[24..].copy_from_slice(&tl);
     ro_reset();
     unsafe {
         ANY_WORDS = 0;
     }
     let mut rng = AnyRng;
-    let sh = Sharks(T);
-    let r = sh.dealer_rng(&secret[..24 * K + TAIL], &mut rng);
+    let sh = Sharks(t);
+    let r = sh.dealer_rng(&secret[..24 + tail], &mut rng);
     assert!(r.is_ok(), "in-range secret is accepted");
-    let mut ev = r.unwrap();
     let draws = unsafe { FP_RANDOM_CALLS };
-    assert!(draws == K * (T as usize - 1), "exactly t-1 draws per secret element");
+    assert!(draws == t as usize - 1, "exactly t-1 draws per secret element");
     assert!(unsafe { ANY_WORDS } == 3 * draws, "three words of the supplied source per coefficient");
-    let mut x = 1u64;
-    while x <= 3 {
-        let s = ev.next().unwrap();
-        assert!(al(&s.x) == x, "sequential points 1, 2, 3");
-        assert!(s.y.len() == K, "one value per secret element");
-        let mut k = 0;
-        while k < K {
-            let mut c = [0u64; 3];
-            let mut j = 0;
-            while j + 1 < T as usize {
-                c[j] = unsafe { FP_RANDOM_LOG[k * (T as usize - 1) + j][0] };
-                j += 1;
-            }
-            c[T as usize - 1] = sv[k];
-            assert!(al(&s.y[k]) == horner(&c, T as usize, x), "share value is the polynomial at x");
-            k += 1;
-        }
-        core::mem::forget(s);
-        x += 1;
-    }
-    kani::cover!(true, "reached");
-    core::mem::forget(ev);
+    (r.unwrap(), v as u32)
 }
-sf_stubs! { #[kani::unwind(6)] fn c06_dealer_k1_t1() { dealer::<1, 0, 1>() } }
-sf_stubs! { #[kani::unwind(6)] fn c06_dealer_k1_t2() { dealer::<1, 0, 2>() } }
-sf_stubs! { #[kani::unwind(6)] fn c06_dealer_k2_t3() { dealer::<2, 0, 3>() } }
-sf_stubs! { #[kani::unwind(6)] fn c06_dealer_k1_tail23_t2() { dealer::<1, 23, 2>() } }
-sf_stubs! { #[kani::unwind(6)] fn c06_dealer_k0_tail1_t2() { dealer::<0, 1, 2>() } }
+fn want1(t: u32, x: u32, v: u32) -> u64 {
+    let q = Q as u32;
+    let d0 = unsafe { FP_RANDOM_LOG[0][0] } as u32;
+    let d1 = unsafe { FP_RANDOM_LOG[1][0] } as u32;
+    (if t == 1 {
+        v
+    } else if t == 2 {
+        (d0 * x + v) % q
+    } else {
+        ((((d0 * x) % q + d1) % q) * x + v) % q
+    }) as u64
+}
+fn dealer1(t: u32, tail: usize) {
+    let (mut ev, v) = deal1(t, tail);
+    let s1 = ev.next().unwrap();
+    let s2 = ev.next().unwrap();
+    let s3 = ev.next().unwrap();
+    assert!(al(&s1.x) == 1 && al(&s2.x) == 2 && al(&s3.x) == 3, "sequential points 1, 2, 3");
+    assert!(s1.y.len() == 1 && s2.y.len() == 1 && s3.y.len() == 1, "one value per secret element");
+    assert!(al(&s1.y[0]) == want1(t, 1, v), "share value is the polynomial at x = 1");
+    assert!(al(&s2.y[0]) == want1(t, 2, v), "share value is the polynomial at x = 2");
+    assert!(al(&s3.y[0]) == want1(t, 3, v), "share value is the polynomial at x = 3");
+    kani::cover!(true, "reached");
+    core::mem::forget((s1, s2, s3, ev));
+}
+sf_stubs! { #[kani::unwind(5)] fn c06_dealer_k1_t1() { dealer1(1, 0) } }
+sf_stubs! { #[kani::unwind(5)] fn c06_dealer_k1_t2() { dealer1(2, 0) } }
+sf_stubs! { #[kani::unwind(5)] fn c06_dealer_k1_t3() { dealer1(3, 0) } }
+sf_stubs! { #[kani::unwind(5)] fn c06_dealer_k1_tail23_t2() { dealer1(2, 23) } }
+
+/// two secret elements, threshold 2: two independent polynomials, draws in order
+fn dealer2() {
+    let v0: u64 = kani::any();
+    let v1: u64 = kani::any();
+    kani::assume(v0 < Q && v1 < Q);
+    let mut secret = [0u8; 48];
+    secret[..24].copy_from_slice(&small_elem_bytes(v0));
+    secret[24..].copy_from_slice(&small_elem_bytes(v1));
+    ro_reset();
+    unsafe {
+        ANY_WORDS = 0;
+    }
+    let mut rng = AnyRng;
+    let sh = Sharks(2);
+    let r = sh.dealer_rng(&secret[..], &mut rng);
+    assert!(r.is_ok(), "in-range secret is accepted");
+    assert!(unsafe { FP_RANDOM_CALLS } == 2 && unsafe { ANY_WORDS } == 6, "one draw per element");
+    let mut ev = r.unwrap();
+    let s1 = ev.next().unwrap();
+    let s2 = ev.next().unwrap();
+    let q = Q as u32;
+    let d0 = unsafe { FP_RANDOM_LOG[0][0] } as u32;
+    let d1 = unsafe { FP_RANDOM_LOG[1][0] } as u32;
+    assert!(s1.y.len() == 2 && s2.y.len() == 2);
+    assert!(al(&s1.y[0]) == ((d0 + v0 as u32) % q) as u64 && al(&s1.y[1]) == ((d1 + v1 as u32) % q) as u64);
+    assert!(al(&s2.y[0]) == ((d0 * 2 + v0 as u32) % q) as u64 && al(&s2.y[1]) == ((d1 * 2 + v1 as u32) % q) as u64);
+    kani::cover!(true, "reached");
+    core::mem::forget((s1, s2, ev));
+}
+sf_stubs! { #[kani::unwind(5)] fn c06_dealer_k2_t2() { dealer2() } }
+
+/// a secret shorter than one element yields an evaluator with no polynomial (shares carry
+/// no values) and consumes no randomness
+fn dealer0() {
+    let b: [u8; 23] = kani::any();
+    ro_reset();
+    unsafe {
+        ANY_WORDS = 0;
+    }
+    let mut rng = AnyRng;
+    let sh = Sharks(2);
+    let r = sh.dealer_rng(&b[..], &mut rng);
+    assert!(r.is_ok());
+    assert!(unsafe { ANY_WORDS } == 0);
+    let mut ev = r.unwrap();
+    let s = ev.next().unwrap();
+    assert!(s.y.len() == 0 && al(&s.x) == 1);
+    kani::cover!(true, "reached");
+    core::mem::forget((s, ev));
+}
+sf_stubs! { #[kani::unwind(5)] fn c06_dealer_k0_tail23() { dealer0() } }
 
 /// out-of-range secret element: refused, never altered
 fn dealer_range<const T: u32>() {
@@ -240,44 +295,63 @@ fn c06_dealer_range_t1() {
 }
 
 /// random evaluation point: the share point is a draw of the supplied source and never 0
-/// (one resample allowed: the second candidate is assumed non-zero, deeper retry chains
-/// are outside the bound)
+/// (two resamples inside the bound: the third candidate is assumed non-zero; longer retry
+/// chains are outside the bound)
+pub struct RetryRng;
+impl rand_core::RngCore for RetryRng {
+    fn next_u32(&mut self) -> u32 {
+        self.next_u64() as u32
+    }
+    fn next_u64(&mut self) -> u64 {
+        let v: u64 = kani::any();
+        unsafe {
+            // words 6.. belong to the third candidate: make it non-zero (two resamples
+            // are inside the bound)
+            if ANY_WORDS == 6 {
+                kani::assume(v != 0 && v < Q);
+            }
+            ANY_WORDS += 1;
+            RNG_WORDS += 1;
+        }
+        v
+    }
+    fn fill_bytes(&mut self, _dest: &mut [u8]) {}
+    fn try_fill_bytes(&mut self, _dest: &mut [u8]) -> Result<(), rand_core::Error> {
+        Ok(())
+    }
+}
 fn gen_nonzero() {
     let v: u64 = kani::any();
-    kani::assume(v < Q);
-    let secret = small_elem_bytes(v);
+    let c: u64 = kani::any();
+    kani::assume(v < Q && c < Q);
+    // the evaluator for f(x) = c*x + v, built through the public constructor
+    let ev = star_sharks::get_evaluator(vec![vec![mk(c), mk(v)]]);
     ro_reset();
     unsafe {
         ANY_WORDS = 0;
     }
-    let mut rng = AnyRng;
-    let sh = Sharks(2);
-    let ev = sh.dealer_rng(&secret[..], &mut rng).unwrap();
-    unsafe {
-        FP_RANDOM_CALLS = 0;
-    }
+    let mut rng = RetryRng;
     let s = ev.gen(&mut rng);
     let n = unsafe { FP_RANDOM_CALLS };
-    // at most two candidates inside the bound
-    kani::assume(n <= 2);
+    assert!(n >= 1 && n <= 3);
     assert!(al(&s.x) != 0, "share point is never zero");
     let last = unsafe { FP_RANDOM_LOG[n - 1] };
-    assert!(fp_limbs(&s.x)[0] == last[0], "share point is the (last) draw");
+    assert!(fp_limbs(&s.x)[0] == last[0], "share point is the accepted draw");
+    let q = Q as u32;
+    assert!(al(&s.y[0]) == (((c as u32) * (al(&s.x) as u32)) % q + v as u32) as u64 % Q, "value is the polynomial at the point");
+    kani::cover!(n == 3, "resampled twice");
     kani::cover!(n == 2, "resampled once");
     kani::cover!(n == 1, "accepted at once");
-    core::mem::forget(s);
-    core::mem::forget(ev);
+    core::mem::forget((s, ev));
 }
-sf_stubs! { #[kani::unwind(4)] fn c06_gen_nonzero() { gen_nonzero() } }
+sf_stubs! { #[kani::unwind(5)] fn c06_gen_nonzero() { gen_nonzero() } }
 
 /// reference Lagrange interpolation at 0 over GF(Q) for up to 3 points
 fn inv_mod(a: u64) -> u64 {
-    // the inverse by its defining equation (a != 0 mod Q)
-    let x: u32 = kani::any();
-    kani::assume(x < Q as u32);
-    kani::assume(((a as u32 % Q as u32) * x) % (Q as u32) == 1);
-    x as u64
+    pow_inv(a as u32) as u64
 }
+/// textbook Lagrange value at 0: sum_i y_i * prod_{j != i} x_j / (x_j - x_i) over GF(Q);
+/// evaluation order mirrors the usual left fold so that the solver can match terms
 fn lagrange0(xs: &[u64], ys: &[u64], n: usize) -> u64 {
     let q = Q as u32;
     let mut acc = 0u32;
@@ -286,241 +360,84 @@ fn lagrange0(xs: &[u64], ys: &[u64], n: usize) -> u64 {
         let mut f = 1u32;
         let mut j = 0;
         while j < n {
-            if j != i {
-                let d = ((xs[j] + Q - xs[i]) % Q) as u32;
-                f = (f * (xs[j] as u32)) % q;
-                f = (f * (inv_mod(d as u64) as u32)) % q;
+            if xs[j] != xs[i] {
+                let d = ((xs[j] + Q - xs[i]) as u32) % q;
+                let frac = ((xs[j] as u32) * pow_inv(d)) % q;
+                f = (f * frac) % q;
             }
             j += 1;
         }
-        acc = (acc + (f * (ys[i] as u32)) % q) % q;
+        let term = (f * (ys[i] as u32)) % q;
+        acc = (acc + term) % q;
         i += 1;
     }
     acc as u64
 }
 
-/// recovery over three shares whose points follow a *concrete* pattern (X1, X2, X3 in
-/// {1,2,3}: every equality/ordering pattern of three points; 0 = share absent) with
-/// symbolic values, threshold T: fewer than T distinct points are refused; otherwise the
-/// result is the reference interpolation of the first T shares with distinct points, in
-/// input order (so duplicates and surplus shares do not matter).
-fn recover_model<const X1: u64, const X2: u64, const X3: u64, const T: u32>() {
+/// `interpolate` on t shares with symbolic pairwise-distinct points and symbolic values
+/// equals the reference Lagrange value at 0 (GF(Q)); with points on a symbolic polynomial
+/// it returns the constant term.
+fn interp2() {
     ro_reset();
-    let xin = [X1, X2, X3];
-    let mut xs = [0u64; 3];
-    let mut ys = [0u64; 3];
-    let mut n = 0usize;
-    let mut shares: Vec<Share> = Vec::with_capacity(3);
-    let mut i = 0;
-    while i < 3 {
-        if xin[i] != 0 {
-            let y: u64 = kani::any();
-            kani::assume(y < Q);
-            xs[n] = xin[i];
-            ys[n] = y;
-            n += 1;
-            shares.push(Share { x: mk(xin[i]), y: vec![mk(y)] });
-        }
-        i += 1;
-    }
-    let sh = Sharks(T);
-    let r = sh.recover(&shares);
-    // reference: first T distinct points in input order
-    let mut dx = [0u64; 3];
-    let mut dy = [0u64; 3];
-    let mut nd = 0usize;
-    let mut i = 0;
-    while i < n {
-        let mut dup = false;
-        let mut j = 0;
-        while j < nd {
-            if dx[j] == xs[i] {
-                dup = true;
-            }
-            j += 1;
-        }
-        if !dup {
-            dx[nd] = xs[i];
-            dy[nd] = ys[i];
-            nd += 1;
-        }
-        i += 1;
-    }
-    if nd < T as usize || T == 0 {
-        assert!(r.is_err(), "fewer than threshold distinct shares are refused");
-    } else {
-        assert!(r.is_ok(), "threshold-many distinct shares recover");
-        let out = r.as_ref().unwrap();
-        assert!(out.len() == 24);
-        let want = lagrange0(&dx, &dy, T as usize);
-        let got = u64::from_le_bytes([out[0], out[1], out[2], out[3], out[4], out[5], out[6], out[7]]);
-        assert!(got == want, "value of the Lagrange interpolation at 0 over the first t distinct shares");
-    }
-    kani::cover!(true, "reached");
-    core::mem::forget(r);
-    core::mem::forget(shares);
-}
-macro_rules! rec {
-    ($($name:ident = ($a:expr, $b:expr, $c:expr, $t:expr)),* $(,)?) => {
-        $( sf_stubs! { #[kani::unwind(5)] fn $name() { recover_model::<$a, $b, $c, $t>() } } )*
-    };
-}
-rec!(
-  c06_recover_111_t1 = (1, 1, 1, 1),
-  c06_recover_112_t1 = (1, 1, 2, 1),
-  c06_recover_113_t1 = (1, 1, 3, 1),
-  c06_recover_121_t1 = (1, 2, 1, 1),
-  c06_recover_122_t1 = (1, 2, 2, 1),
-  c06_recover_123_t1 = (1, 2, 3, 1),
-  c06_recover_131_t1 = (1, 3, 1, 1),
-  c06_recover_132_t1 = (1, 3, 2, 1),
-  c06_recover_133_t1 = (1, 3, 3, 1),
-  c06_recover_211_t1 = (2, 1, 1, 1),
-  c06_recover_212_t1 = (2, 1, 2, 1),
-  c06_recover_213_t1 = (2, 1, 3, 1),
-  c06_recover_221_t1 = (2, 2, 1, 1),
-  c06_recover_222_t1 = (2, 2, 2, 1),
-  c06_recover_223_t1 = (2, 2, 3, 1),
-  c06_recover_231_t1 = (2, 3, 1, 1),
-  c06_recover_232_t1 = (2, 3, 2, 1),
-  c06_recover_233_t1 = (2, 3, 3, 1),
-  c06_recover_311_t1 = (3, 1, 1, 1),
-  c06_recover_312_t1 = (3, 1, 2, 1),
-  c06_recover_313_t1 = (3, 1, 3, 1),
-  c06_recover_321_t1 = (3, 2, 1, 1),
-  c06_recover_322_t1 = (3, 2, 2, 1),
-  c06_recover_323_t1 = (3, 2, 3, 1),
-  c06_recover_331_t1 = (3, 3, 1, 1),
-  c06_recover_332_t1 = (3, 3, 2, 1),
-  c06_recover_333_t1 = (3, 3, 3, 1),
-  c06_recover_111_t2 = (1, 1, 1, 2),
-  c06_recover_112_t2 = (1, 1, 2, 2),
-  c06_recover_113_t2 = (1, 1, 3, 2),
-  c06_recover_121_t2 = (1, 2, 1, 2),
-  c06_recover_122_t2 = (1, 2, 2, 2),
-  c06_recover_123_t2 = (1, 2, 3, 2),
-  c06_recover_131_t2 = (1, 3, 1, 2),
-  c06_recover_132_t2 = (1, 3, 2, 2),
-  c06_recover_133_t2 = (1, 3, 3, 2),
-  c06_recover_211_t2 = (2, 1, 1, 2),
-  c06_recover_212_t2 = (2, 1, 2, 2),
-  c06_recover_213_t2 = (2, 1, 3, 2),
-  c06_recover_221_t2 = (2, 2, 1, 2),
-  c06_recover_222_t2 = (2, 2, 2, 2),
-  c06_recover_223_t2 = (2, 2, 3, 2),
-  c06_recover_231_t2 = (2, 3, 1, 2),
-  c06_recover_232_t2 = (2, 3, 2, 2),
-  c06_recover_233_t2 = (2, 3, 3, 2),
-  c06_recover_311_t2 = (3, 1, 1, 2),
-  c06_recover_312_t2 = (3, 1, 2, 2),
-  c06_recover_313_t2 = (3, 1, 3, 2),
-  c06_recover_321_t2 = (3, 2, 1, 2),
-  c06_recover_322_t2 = (3, 2, 2, 2),
-  c06_recover_323_t2 = (3, 2, 3, 2),
-  c06_recover_331_t2 = (3, 3, 1, 2),
-  c06_recover_332_t2 = (3, 3, 2, 2),
-  c06_recover_333_t2 = (3, 3, 3, 2),
-  c06_recover_111_t3 = (1, 1, 1, 3),
-  c06_recover_112_t3 = (1, 1, 2, 3),
-  c06_recover_113_t3 = (1, 1, 3, 3),
-  c06_recover_121_t3 = (1, 2, 1, 3),
-  c06_recover_122_t3 = (1, 2, 2, 3),
-  c06_recover_123_t3 = (1, 2, 3, 3),
-  c06_recover_131_t3 = (1, 3, 1, 3),
-  c06_recover_132_t3 = (1, 3, 2, 3),
-  c06_recover_133_t3 = (1, 3, 3, 3),
-  c06_recover_211_t3 = (2, 1, 1, 3),
-  c06_recover_212_t3 = (2, 1, 2, 3),
-  c06_recover_213_t3 = (2, 1, 3, 3),
-  c06_recover_221_t3 = (2, 2, 1, 3),
-  c06_recover_222_t3 = (2, 2, 2, 3),
-  c06_recover_223_t3 = (2, 2, 3, 3),
-  c06_recover_231_t3 = (2, 3, 1, 3),
-  c06_recover_232_t3 = (2, 3, 2, 3),
-  c06_recover_233_t3 = (2, 3, 3, 3),
-  c06_recover_311_t3 = (3, 1, 1, 3),
-  c06_recover_312_t3 = (3, 1, 2, 3),
-  c06_recover_313_t3 = (3, 1, 3, 3),
-  c06_recover_321_t3 = (3, 2, 1, 3),
-  c06_recover_322_t3 = (3, 2, 2, 3),
-  c06_recover_323_t3 = (3, 2, 3, 3),
-  c06_recover_331_t3 = (3, 3, 1, 3),
-  c06_recover_332_t3 = (3, 3, 2, 3),
-  c06_recover_333_t3 = (3, 3, 3, 3),
-  c06_recover_120_t2 = (1, 2, 0, 2),
-  c06_recover_100_t1 = (1, 0, 0, 1),
-  c06_recover_100_t2 = (1, 0, 0, 2),
-  c06_recover_000_t1 = (0, 0, 0, 1),
-  c06_recover_120_t0 = (1, 2, 0, 0),
-  c06_recover_210_t2 = (2, 1, 0, 2)
-);
-
-/// shares of unequal length are refused
-fn recover_unequal() {
-    let a = Share { x: mk(1), y: vec![mk(kani::any::<u16>() as u64)] };
-    let b = Share { x: mk(2), y: vec![] };
-    let first_long: bool = kani::any();
-    let v = if first_long { vec![a, b] } else { vec![b, a] };
-    let t: u32 = kani::any();
-    kani::assume(t <= 2);
-    let sh = Sharks(t);
-    let r = sh.recover(&v);
-    assert!(r.is_err(), "shares of unequal length are refused");
-    kani::cover!(true, "reached");
-    core::mem::forget(r);
-    core::mem::forget(v);
-}
-sf_stubs! { #[kani::unwind(5)] fn c06_recover_unequal() { recover_unequal() } }
-
-// ---- cost probes (temporary) ----
-sf_stubs! { #[kani::unwind(5)] fn probe_btree() {
-    let mut keys: std::collections::BTreeSet<Vec<u8>> = std::collections::BTreeSet::new();
-    let a = keys.insert(vec![1u8; 24]);
-    let b = keys.insert(vec![2u8; 24]);
-    let c = keys.insert(vec![1u8; 24]);
-    assert!(a && b && !c && keys.len() == 2);
-    core::mem::forget(keys);
-} }
-sf_stubs! { #[kani::unwind(5)] fn probe_interp() {
-    ro_reset();
+    let x1: u64 = kani::any();
+    let x2: u64 = kani::any();
     let y1: u64 = kani::any();
     let y2: u64 = kani::any();
-    kani::assume(y1 < Q && y2 < Q);
-    let v = [Share { x: mk(1), y: vec![mk(y1)] }, Share { x: mk(2), y: vec![mk(y2)] }];
+    kani::assume(x1 < Q && x2 < Q && y1 < Q && y2 < Q && x1 != x2);
+    let v = [Share { x: mk(x1), y: vec![mk(y1)] }, Share { x: mk(x2), y: vec![mk(y2)] }];
     let r = star_sharks::interpolate(&v);
     assert!(r.is_ok());
-    core::mem::forget(r);
-    core::mem::forget(v);
-} }
-sf_stubs! { #[kani::unwind(5)] fn probe_recover_concrete() {
+    let out = r.as_ref().unwrap();
+    assert!(out.len() == 24);
+    let got = u64::from_le_bytes([out[0], out[1], out[2], out[3], out[4], out[5], out[6], out[7]]);
+    let want = lagrange0(&[x1, x2, 0], &[y1, y2, 0], 2);
+    assert!(got == want, "Lagrange interpolation at 0 (t = 2)");
+    kani::cover!(true, "reached");
+    core::mem::forget((r, v));
+}
+sf_stubs! { #[kani::unwind(5)] fn c06_interpolate_t2() { interp2() } }
+
+fn interp3() {
     ro_reset();
-    let v = vec![Share { x: mk(1), y: vec![mk(5)] }, Share { x: mk(2), y: vec![mk(7)] }];
-    let sh = Sharks(2);
-    let r = sh.recover(&v);
-    assert!(r.is_ok());
-    core::mem::forget(r);
-    core::mem::forget(v);
-} }
-#[kani::proof]
-#[kani::unwind(5)]
-#[kani::stub(zeroize::optimization_barrier, barrier_noop)]
-#[kani::stub(star_sharks::Fp::is_valid, sf_is_valid_assume)]
-#[kani::stub(<star_sharks::Fp as ff::PrimeField>::from_repr, fp_from_repr_spec)]
-#[kani::stub(<star_sharks::Fp as ff::PrimeField>::to_repr, sf_to_repr)]
-#[kani::stub(<star_sharks::Fp as core::ops::MulAssign<&star_sharks::Fp>>::mul_assign, sf_mul_assign)]
-#[kani::stub(<star_sharks::Fp as core::ops::AddAssign<&star_sharks::Fp>>::add_assign, sf_add_assign)]
-#[kani::stub(<star_sharks::Fp as core::ops::SubAssign<&star_sharks::Fp>>::sub_assign, sf_sub_assign)]
-#[kani::stub(<star_sharks::Fp as ff::Field>::invert, sf_invert)]
-#[kani::stub(star_sharks::Sharks::recover, sharks_recover_ref)]
-fn probe_recover_stubbed() {
-    ro_reset();
+    let x1: u64 = kani::any();
+    let x2: u64 = kani::any();
+    let x3: u64 = kani::any();
     let y1: u64 = kani::any();
     let y2: u64 = kani::any();
-    kani::assume(y1 < Q && y2 < Q);
-    let v = vec![Share { x: mk(1), y: vec![mk(y1)] }, Share { x: mk(2), y: vec![mk(y2)] }];
-    let sh = Sharks(2);
-    let r = sh.recover(&v);
+    let y3: u64 = kani::any();
+    kani::assume(x1 < Q && x2 < Q && x3 < Q && y1 < Q && y2 < Q && y3 < Q);
+    kani::assume(x1 != x2 && x1 != x3 && x2 != x3);
+    let v = [Share { x: mk(x1), y: vec![mk(y1)] }, Share { x: mk(x2), y: vec![mk(y2)] }, Share { x: mk(x3), y: vec![mk(y3)] }];
+    let r = star_sharks::interpolate(&v);
     assert!(r.is_ok());
-    core::mem::forget(r);
-    core::mem::forget(v);
+    let out = r.as_ref().unwrap();
+    let got = u64::from_le_bytes([out[0], out[1], out[2], out[3], out[4], out[5], out[6], out[7]]);
+    let want = lagrange0(&[x1, x2, x3], &[y1, y2, y3], 3);
+    assert!(got == want, "Lagrange interpolation at 0 (t = 3)");
+    kani::cover!(true, "reached");
+    core::mem::forget((r, v));
 }
+sf_stubs! { #[kani::unwind(5)] fn c06_interpolate_t3() { interp3() } }
+
+
+/// large thresholds: the number of coefficient draws is exactly t-1 also where a narrowed
+/// counter would wrap (t = 256, 257)
+fn dealer_big(t: u32) {
+    let v: u64 = kani::any();
+    kani::assume(v < Q);
+    let secret = small_elem_bytes(v);
+    ro_reset();
+    unsafe {
+        ANY_WORDS = 0;
+    }
+    let mut rng = AnyRng;
+    let sh = Sharks(t);
+    let r = sh.dealer_rng(&secret[..], &mut rng);
+    assert!(r.is_ok());
+    assert!(unsafe { FP_RANDOM_CALLS } == t as usize - 1, "exactly t-1 coefficient draws");
+    assert!(unsafe { ANY_WORDS } == 3 * (t as usize - 1));
+    kani::cover!(true, "reached");
+    core::mem::forget(r);
+}
+sf_stubs! { #[kani::unwind(5)] fn c06_dealer_t256() { dealer_big(256) } }
+sf_stubs! { #[kani::unwind(5)] fn c06_dealer_t257() { dealer_big(257) } }
